@@ -4,6 +4,11 @@ from checks import alphwatchcommon
 
 def run(ctx):
     alphwatchcommon.private_work(ctx)
+    # the watcher selects token-bridge messages by the index of `event WormholeMessage` among the governance contract's event
+    # declarations: a source fact shared with C11 (Whv/Gen/C11.lean, theorem c11_event_index); a contract in which the event has
+    # another index makes the watcher reject every message (clause wormhole-message-event-index-mismatch)
+    from checks import c11
+    c11.contract_deviations(ctx, c11.gen(ctx), pid="C09")
     ctx.prove(families=("alphwatch",))
     alphwatchcommon.run_alphwatch(ctx, "c09")
     ctx.cov["rule"] = (
@@ -16,4 +21,11 @@ def run(ctx):
         "events, forwarded messages, request log, exit / poller flags) and the Spec holds on the implementation's result. Heights in pipe cases "
         "come from the real fetchHeight (gated chain-info requests); liveness is judged per event (ground truth = the fake node's log and "
         "what the fetch loop delivered), including several messages of one transaction in one block, and on drain ticks that are skipped "
-        "because the poller is disabled")
+        "because the poller is disabled"
+        "; meta: metadata histories - for each of the 28 failing answer shapes of the token contract (HTTP 500/400/404, wrong number "
+        "of results, failed / undecodable / empty / double returns per position, wrong types, bad hex, 256) a foreign sender's "
+        "attestation-shaped event names token X while X answers like that (met by the polling path, by a re-observation request, "
+        "or both; now and then the watcher is restarted in between); then X answers (`wti`), and the token bridge's genuine "
+        "attestation of X must be delivered, forwarded by the polling path and by a re-observation request served by the same "
+        "Watcher and Client (wellformed-event-dropped, final-message-not-forwarded, reobs-wellformed-event-dropped); rst: restart "
+        "scenarios, see C08 - after the last restart everything delivered and final is owed again")
